@@ -86,11 +86,33 @@ fn node_index(name: &str) -> Option<u64> {
     name.rsplit("::").next()?.strip_prefix('T')?.parse().ok()
 }
 
-impl Family for Cycles {
-    fn run(&mut self, case: &Value) -> Outcome {
+/// The program of a case split into files: one file per node of the graph (an interface / alias / type per file, each with
+/// the module line), what is left (users of the nodes) in a last file - for the order-independence runs of C15.
+pub fn render_split(case: &Value) -> Vec<String> {
+    let text = render_text(case);
+    let mut lines = text.lines();
+    let module = lines.next().unwrap_or("module M").to_owned();
+    let n = case["n"].as_u64().unwrap_or(0) as usize;
+    let mut files: Vec<String> = Vec::new();
+    let mut rest = String::new();
+    for l in lines {
+        if files.len() < n {
+            files.push(format!("{module}\n{l}\n"));
+        } else {
+            rest.push_str(l);
+            rest.push('\n');
+        }
+    }
+    if !rest.is_empty() {
+        files.push(format!("{module}\n{rest}"));
+    }
+    files
+}
+
+pub fn render_text(case: &Value) -> String {
         let family = case["family"].as_str().unwrap_or("");
         let n = case["n"].as_u64().unwrap_or(0);
-        let text = match family {
+        match family {
             "contain" => render_contain(case),
             "alias" => {
                 let mut s = String::from("module M\n");
@@ -119,7 +141,14 @@ impl Family for Cycles {
                 s
             }
             _ => String::new(),
-        };
+        }
+}
+
+impl Family for Cycles {
+    fn run(&mut self, case: &Value) -> Outcome {
+        let family = case["family"].as_str().unwrap_or("");
+        let n = case["n"].as_u64().unwrap_or(0);
+        let text = render_text(case);
         let key = hash_str(&text);
         let rendered = json!({"text": text});
         let state = slicec::compile_from_strings(&[&text], None);
